@@ -2,7 +2,7 @@
 import ast
 
 from ..common import Ctx, U, AnalysisError, callee_name, annotate, ret_expr
-from ..layout import Writer, normalise, rename_rep, show, Seq
+from ..layout import Writer, normalise, rename_rep, show, Seq, select
 from ..declayout import summarise_decode
 from ..pdumatch import Spec, compare_encode, match_decode
 from ..msgtables import table, code_of
@@ -193,11 +193,129 @@ def r4_dispatch(ck, cx):
     ck.ob('R4', er.qn, 'ExceptionOffset = 0x80', off == EXCEPTION_FLAG, detail='exception-offset %r' % off, loc=er.loc)
 
 
+def shared_layout_findings(ck, cx, rule, class_names, why, rules=('R2', 'R3')):
+    """re-report, under `rule` of another property, the C01 R2/R3 layout findings of the named classes"""
+    sub = type(ck)(ck.pid, ck.tier)
+    sub.guard(r2_r3_layouts, sub, cx)
+    n = 0
+    for o in sub.obligations:
+        if o[0] in rules and any(('.%s.' % c) in (str(o[1]) + '.') or str(o[1]).endswith('.' + c) for c in class_names):
+            ck.obligations.append((rule,) + tuple(o[1:]))
+            n += 1
+    for f in sub.findings:
+        if f.rule in rules and any(('.%s.' % c) in (f.construct + '.') for c in class_names):
+            ck.finding(rule, f.construct, f.detail, f.loc, f.message + ' — ' + why)
+    ck.broken += sub.broken
+    return n
+
+
+def r6_constructor_keeps_zero(ck, cx):
+    """A message built with field value v must carry v: `self.a = a or DEFAULT` with a non-zero default turns the valid
+    value 0 into the default.  Checked for every integer wire field (an attribute encode() packs) for which the
+    specification allows 0."""
+    from spec.tables import ZERO_EXCLUDED_FIELDS
+    from ..common import annotate
+    ck.rule('R6', 'constructors store an integer field argument unchanged for every valid value, 0 included (no `arg or non-zero default`)')
+    seen, n = set(), 0
+
+    def falsy_fallback(e, params):
+        # -> (param, default expr) when e is `p or D` / `p if p else D` / `D if not p else p`
+        if isinstance(e, ast.BoolOp) and isinstance(e.op, ast.Or) and isinstance(e.values[0], ast.Name) and e.values[0].id in params:
+            return e.values[0].id, e.values[-1]
+        if isinstance(e, ast.IfExp):
+            t = e.test
+            if isinstance(t, ast.Name) and t.id in params and U(e.body) == t.id:
+                return t.id, e.orelse
+            if isinstance(t, ast.UnaryOp) and isinstance(t.op, ast.Not) and isinstance(t.operand, ast.Name) and t.operand.id in params \
+                    and U(e.orelse) == t.operand.id:
+                return t.operand.id, e.body
+        return None
+    for k, _spec, _role in all_codec_classes(cx):
+        enc = cx.idx.find_method(k, 'encode')
+        if enc is None:
+            continue
+        try:
+            seq = normalise(select(Writer(cx, k).func(enc), lambda c: False if c == 'self.skip_encode' else None))
+        except Exception:
+            continue
+        wire_ints = set()
+
+        def collect(sq):
+            for it in sq:
+                if it[0] == 'F' and isinstance(it[2], str) and it[2].startswith('self.') and it[2][5:].isidentifier():
+                    wire_ints.add(it[2][5:])
+                elif it[0] in ('ALT',):
+                    collect(it[2]); collect(it[3])
+                elif it[0] == 'REP':
+                    collect(it[1])
+        collect(seq)
+        for c in cx.idx.mro(k):
+            init = c.methods.get('__init__')
+            if init is None or (init.qn, k.qn) in seen:
+                continue
+            seen.add((init.qn, k.qn))
+            params = set(init.params[1:])
+            for p in cx.enum(init, c, max_depth=0):
+                annotate(p, heap=False)
+                for ev in p.ev:
+                    if ev.kind == 'assign' and isinstance(ev.a, ast.Attribute) and U(ev.a.value) == 'self' and ev.a.attr in wire_ints:
+                        n += 1
+                        fb = falsy_fallback(getattr(ev, '_sub', None) or ev.node.value, params)
+                        if fb is None or ev.a.attr in ZERO_EXCLUDED_FIELDS:
+                            continue
+                        d = cx.ce.try_ev(fb[1], init.mod, c)
+                        ck.ob('R6', init.qn, 'self.%s keeps a 0 argument' % ev.a.attr, not (isinstance(d, int) and d != 0),
+                              detail='zero-argument-replaced %s->%r' % (ev.a.attr, d), loc=cx.floc(init, ev.node),
+                              message='%s: %s=0 is a valid field value but `%s` stores %r instead: the message is encoded with the default, not with 0'
+                                      % (init.qn, fb[0], U(ev.node.value), d))
+    ck.floor('R6', n, 40, 'integer wire fields assigned in constructors')
+
+
+def r7_register_keeps_tables(ck, cx, rule='R7'):
+    """register(custom class): adds one (function code, sub-function code) entry; every other entry of the decoder tables
+    stays.  A whole-table write for one function code is allowed only where that function code had no table yet."""
+    ck.rule(rule, 'decoder.register() adds its entry without replacing the existing sub-function table of that function code')
+    from ..common import annotate
+    n = 0
+    for dn in ('ServerDecoder', 'ClientDecoder'):
+        d = cx.idx.cls('pymodbus.factory.' + dn)
+        f = cx.idx.find_method(d, 'register')
+        if f is None:
+            continue
+        ck.saw('functions', f.qn)
+        for p in cx.enum(f, d, max_depth=0):
+            annotate(p, heap=False)
+            for i, ev in enumerate(p.ev):
+                whole = None      # (key text, value node) of a depth-1 write into the sub-function table
+                if ev.kind == 'assign' and isinstance(ev.a, ast.Subscript) and U(ev.a.value).endswith('__sub_lookup'):
+                    whole = (U(ev.a.slice), ev.node.value)
+                elif ev.kind == 'call' and isinstance(ev.node.func, ast.Attribute) and ev.node.func.attr == 'update' and U(ev.node.func.value).endswith('__sub_lookup') \
+                        and ev.node.args and isinstance(ev.node.args[0], ast.Dict) and ev.node.args[0].keys:
+                    whole = (U(ev.node.args[0].keys[0]), ev.node.args[0].values[0])
+                elif ev.kind == 'assign' and isinstance(ev.a, ast.Subscript) and isinstance(ev.a.value, ast.Subscript) and U(ev.a.value.value).endswith('__sub_lookup'):
+                    n += 1      # one entry of the inner table: the intended form
+                if whole is None:
+                    continue
+                n += 1
+                key, val = whole
+                absent = any(c.kind == 'cond' and key in U(c.node) and '__sub_lookup' in U(c.node) and
+                             ((' not in ' in U(c.node) and c.a is True) or (' in ' in U(c.node) and ' not in ' not in U(c.node) and c.a is False))
+                             for c in p.ev[:i])
+                merges = any(isinstance(x, ast.Attribute) and x.attr.endswith('__sub_lookup') for x in ast.walk(val))
+                ck.ob(rule, f.qn, 'a whole sub-function table is written only for a function code that had none (or merged with the old one)', absent or merges,
+                      detail='register-replaces-sub-table', loc=cx.floc(f, ev.node),
+                      message='%s.register replaces the sub-function table of the function code with `%s`: after registering one custom sub-function '
+                              'every built-in sub-function of that code (0x08 diagnostics, 0x2B MEI) is no longer dispatched' % (dn, U(val)[:60]))
+    ck.floor(rule, n, 2, 'sub-function table writes in register()')
+
+
 def run(ck, tier):
     cx = Ctx()
     ck.guard(r1_tables, ck, cx)
     ck.guard(r2_r3_layouts, ck, cx)
     ck.guard(r4_dispatch, ck, cx)
+    ck.guard(r6_constructor_keeps_zero, ck, cx)
+    ck.guard(r7_register_keeps_tables, ck, cx)
     from .c02 import r5_no_shared_default_state
     ck.guard(r5_no_shared_default_state, ck, cx, 'R5')
     ck.assume('the arithmetic inside pack_bitstring / unpack_bitstring (LSB-first packing) and struct itself are in the trusted base; the rules prove every bit field goes through them')
